@@ -94,10 +94,12 @@ BADVALS = ["abc", "1..2", "", "0x", "1e", "--1"]
 
 
 def fbits(tok):
+    """float64 bits of a value token the way strconv.ParseFloat reads it (underscores are only legal where Go accepts them;
+    where it does not, the line is invalid and the bits are never used)"""
     try:
-        t = tok.replace("_", "") if "_" in tok and not tok.startswith("0x") else tok
-        if tok.lower().startswith(("0x", "+0x", "-0x")):
-            v = float.fromhex(tok)
+        t = tok.replace("_", "")
+        if t.lower().lstrip("+-").startswith("0x"):
+            v = float.fromhex(t)
         else:
             v = float(t)
         if v != v:
